@@ -693,7 +693,7 @@ fn convert_rpx_in_block(
                     Token::Function(func) => {
                         let func: &str = func;
                         // functions nested in calc() (min, max, var...) are still inside it
-                        let config = if func == "calc" || in_calc {
+                        let config = if func.eq_ignore_ascii_case("calc") || in_calc {
                             Some(ConvertOptions { in_calc: true })
                         } else {
                             None
